@@ -72,7 +72,7 @@ SeqSet(s) == {s[i] : i \in DOMAIN s}
 MiscInit == [probe |-> [e \in EP |-> -1], thr |-> <<>>, cbs |-> <<>>, ackDue |-> [e \in EP |-> -1],
              incn |-> <<>>, fwdMax |-> [e \in EP |-> -1],
              nack |-> [line |-> 0, to |-> -1, set |-> {}, hb |-> FALSE], teardown |-> FALSE, shutAt |-> <<>>, shutRet |-> <<>>, closedInc |-> <<>>, wdl |-> <<>>, rdl |-> <<>>, reqs |-> <<>>, gen |-> <<>>, performed |-> {}, genAtRx |-> <<>>, rsGen |-> <<>>,
-             pendReads |-> <<>>, txn |-> [e \in EP |-> 0]]
+             pendReads |-> <<>>, hbCalls |-> <<>>, hbSeen |-> {}, txn |-> [e \in EP |-> 0]]
 
 InitVars ==
   /\ scen = "" /\ cfg = [none |-> TRUE]
@@ -158,7 +158,7 @@ TrWrite ==
                     THEN {V("C08_WriteAfterShutdownRejected", <<E.ep, E.sid, E.id>>)} ELSE {})
               \cup (IF ~E.ok /\ \E t \in DOMAIN ch[E.ep] : ch[E.ep][t].id = E.id
                     THEN {V("C18_FailedWriteOnWire", <<E.ep, E.sid, E.id, E.err>>)} ELSE {})
-  /\ step' = E
+  /\ step' = (IF "async" \in DOMAIN E THEN step ELSE E)
   /\ l' = l + 1
   /\ UNCHANGED <<scen, cfg, reads, ch, hi, pkt, rcvd, skipTo, ackCum, ackGap, arw, outst, lastSack, sackEv, sn, newData, misc, rs, acc>>
 
@@ -444,8 +444,16 @@ TrChunkReconfig ==
   /\ UNCHANGED <<scen, cfg, msg, order, reads, ch, hi, rcvd, skipTo, ackCum, ackGap, arw, outst, lastSack, sackEv, sn, step, newData, rs, acc>>
 
 \* --- any other chunk (handshake, reconfig, shutdown, abort, heartbeat ...): stored with the packet
+\* --- HEARTBEAT / HEARTBEAT-ACK written by an endpoint (C19: an on-demand heartbeat is answered)
+TrChunkHb ==
+  /\ IsEv("c") /\ E.k \in {"hb", "hback"} /\ ~pkt[E.pid].forged /\ "bad" \notin DOMAIN E
+  /\ pkt' = [pkt EXCEPT ![E.pid].chunks = Append(@, E)]
+  /\ misc' = [misc EXCEPT !.hbSeen = @ \cup {<<E.k, E.ep, E.info, l>>}]
+  /\ l' = l + 1
+  /\ UNCHANGED <<scen, cfg, msg, order, reads, ch, hi, rcvd, skipTo, ackCum, ackGap, arw, outst, lastSack, sackEv, sn, step, newData, rs, acc, viol>>
+
 TrChunkOther ==
-  /\ IsEv("c") /\ (pkt[E.pid].forged \/ "bad" \in DOMAIN E \/ E.k \notin (DataKinds \cup {"sack", "fwd", "ifwd", "shutdown", "reconfig"}))
+  /\ IsEv("c") /\ (pkt[E.pid].forged \/ "bad" \in DOMAIN E \/ E.k \notin (DataKinds \cup {"sack", "fwd", "ifwd", "shutdown", "reconfig", "hb", "hback"}))
   /\ pkt' = [pkt EXCEPT ![E.pid].chunks = Append(@, E)]
   /\ l' = l + 1
   /\ UNCHANGED <<scen, cfg, msg, order, reads, ch, hi, rcvd, skipTo, ackCum, ackGap, arw, outst, lastSack, sackEv, sn, step, newData, misc, rs, acc, viol>>
@@ -735,12 +743,13 @@ TrApi ==
                [] E.op \in {"shutdown-call", "close-call", "abort-call", "connfail"} ->
                     [misc EXCEPT !.teardown = TRUE, !.shutAt = IF E.op = "shutdown-call" THEN Upd(@, E.ep, l) ELSE @]
                [] E.op = "shutdown-ret" -> [misc EXCEPT !.shutRet = Upd(@, E.ep, E.ok)]
+               [] E.op = "heartbeat" -> [misc EXCEPT !.hbCalls = Append(@, [ep |-> E.ep, srtt |-> IF sn[E.ep] = NoSnap THEN 0 ELSE sn[E.ep].srtt, line |-> l])]
                [] E.op = "setwritedeadline" -> [misc EXCEPT !.wdl = Upd(@, <<E.ep, E.sid>>, E.at)]
                [] E.op = "setreaddeadline" -> [misc EXCEPT !.rdl = Upd(@, <<E.ep, E.sid>>, E.at)]
                [] E.op = "closestream" /\ E.ok -> [misc EXCEPT !.closedInc = Upd(@, <<E.ep, E.sid>>, Get(misc.incn, <<E.ep, E.sid>>, 0))]
                [] OTHER -> misc
   /\ viol' = viol \cup AckLate(E.t) \cup ApiViol(E)
-  /\ step' = E
+  /\ step' = (IF E.op \in {"shutdown-ret", "connect-ret", "close-ret", "abort-ret", "connect-call"} THEN step ELSE E)
   /\ l' = l + 1
   /\ UNCHANGED <<scen, cfg, msg, order, reads, ch, hi, pkt, rcvd, skipTo, ackCum, ackGap, arw, outst, lastSack, sackEv, sn, newData, rs, acc>>
 
@@ -797,6 +806,14 @@ ExpectViol(x) ==
     \cup {V("C07_LaterDelivered", <<msg[id].ep, msg[id].sid, id, msg[id].len>>) : id \in prMissing}
     \cup UNION {{V("C02_BufferedZero", <<e, y.sid, y.ba>>) : y \in {z \in {sn[e].streams[i] : i \in DOMAIN sn[e].streams} : z.known /\ z.ba # 0}}
                 : e \in {q \in EP : sn[q] # NoSnap}}
+    \* C19: every on-demand heartbeat went out with its info, was answered, and produced an RTT sample
+    \cup UNION {LET c == misc.hbCalls[i]
+                    sent == \E h \in misc.hbSeen : h[1] = "hb" /\ h[2] = c.ep /\ h[3] /\ h[4] > c.line
+                    answered == \E h \in misc.hbSeen : h[1] = "hback" /\ h[2] = Peer(c.ep) /\ h[3] /\ h[4] > c.line
+                    sampled == sn[c.ep] # NoSnap /\ sn[c.ep].srtt > 0
+                IN IF sent /\ answered /\ sampled THEN {}
+                   ELSE {V("C19_HeartbeatAnswered", <<c.ep, IF ~sent THEN "not-sent-with-info" ELSE IF ~answered THEN "not-answered" ELSE "no-rtt-sample">>)}
+               : i \in DOMAIN misc.hbCalls}
     \cup {V("C14_EofDelivered", <<k[1], k[2]>>) :
              k \in {q \in DOMAIN misc.closedInc : "reset" \in DOMAIN x /\ Get(misc.incn, <<Peer(q[1]), q[2]>>, 0) > 0 /\ ~\E i \in DOMAIN Get(reads, <<Peer(q[1]), q[2]>>, <<>>) :
                                                        reads[<<Peer(q[1]), q[2]>>][i].err = "eof"}}
@@ -844,7 +861,7 @@ TrPassive ==
   /\ l' = l + 1
   /\ UNCHANGED <<scen, cfg, msg, order, reads, ch, hi, pkt, rcvd, skipTo, ackCum, ackGap, arw, outst, lastSack, sackEv, sn, newData, misc, rs, acc, viol>>
 
-Next == TrCfg \/ TrWCall \/ TrWrite \/ TrRead \/ TrTx \/ TrForge \/ TrChunkData \/ TrChunkSack \/ TrChunkFwd \/ TrChunkShutdown \/ TrChunkReconfig \/ TrChunkOther
+Next == TrCfg \/ TrWCall \/ TrWrite \/ TrRead \/ TrTx \/ TrForge \/ TrChunkData \/ TrChunkSack \/ TrChunkFwd \/ TrChunkShutdown \/ TrChunkReconfig \/ TrChunkHb \/ TrChunkOther
         \/ TrRx \/ TrSnap \/ TrSame \/ TrEnd \/ TrApi \/ TrCb \/ TrTick \/ TrExpect \/ TrDiff \/ TrHsFinal \/ TrHsSpecial \/ TrShutEnd \/ TrPassive
 
 Spec == Init /\ [][Next]_vars
